@@ -252,7 +252,7 @@ func c10StackLimitScan(c *Ctx) {
 		"let m = {k: numbers(7).iir(e -> e, (e, l) -> l + e)}; func f(n) if n = 0 then m.k.append(n).string().len() else f(n - 1); try f(a) catch 0 - 1",
 	}
 	for _, src := range progs {
-		iso0, iso3 := isolatedOutcome(src, 0), isolatedOutcome(src, 3)
+		iso0, iso3, isoShallow := isolatedOutcome(src, 0), isolatedOutcome(src, 3), isolatedOutcome(src, 9000)
 		for d := 9930; d <= 10030; d++ {
 			// a fresh generated function per depth: once an evaluation got through, the list is in memory for good
 			fg := newValueFG(true)
@@ -260,7 +260,8 @@ func c10StackLimitScan(c *Ctx) {
 			if err != nil {
 				fatal("c10 stack limit scan: %v", err)
 			}
-			for _, a := range []int{d, 0, 3} {
+			firstAtDepth := ""
+			for step, a := range []int{d, 0, 3, d} {
 				out := func() (o string) {
 					defer func() {
 						if r := recover(); r != nil {
@@ -276,11 +277,25 @@ func c10StackLimitScan(c *Ctx) {
 				}()
 				c.Case(fmt.Sprintf("stack-limit-scan|%s|%d|%d", src, d, a), true)
 				c.Count("stack-limit-scan")
+				if step == 0 {
+					firstAtDepth = out
+					continue
+				}
 				want := iso0
 				if a == 3 {
 					want = iso3
 				}
-				if a != d && out != want {
+				if step == 3 {
+					// the evaluation at depth d again, after the list has been materialised at depth 0: the first evaluation of THIS
+					// function was the isolated one
+					want = firstAtDepth
+					if out != want && want == "OK i-1" && out == isoShallow {
+						c.Violation("stack-limit-hidden-by-materialised-list", "an evaluation that runs out of value stack on a fresh function succeeds after another evaluation has materialised the shared constant list",
+							map[string]any{"program": src, "argument": a, "outcome": out, "isolated": want})
+						continue
+					}
+				}
+				if out != want {
 					c.disagree++
 					c.Violation("evaluation-depends-on-history", "after an evaluation that ran out of value stack at some depth, the next evaluation differs from the one on a fresh generator",
 						map[string]any{"program": src, "depth_of_the_failing_evaluation": d, "argument": a, "outcome": trunc(out, 200), "isolated": trunc(want, 200)})
@@ -296,6 +311,7 @@ func runC10(c *Ctx) {
 	// (a replay of C10 is the quick tier again: every family is deterministic)
 	c10Pooled(c)
 	c10StackLimitScan(c)
+	c10MemoCells(c)
 	c.rule = "programs with state that survives an evaluation (constant lazy lists, constant maps and closures bound before use, recursion, failing elements, partially consumed lists; corpus + C01 generator with a constant list in scope) are generated once and evaluated in a history of up to 50 steps: arguments from a pool of 8, handed over as a sub-slice of a host-owned buffer with spare capacity (which must stay untouched), interleaved with evaluations of two other functions of the same generator, new Generate calls, results dropped, forced, or half consumed (first / top / size via the API) and consumed later; predicate: every outcome equals the isolated first evaluation of the same program and argument on a fresh generator, and the Lean model's reference outcome; non-trivial = distinct (program, history) with >= 3 evaluations over >= 2 different arguments of a program that contains a constant list/closure"
 	c.assume = append(c.assume, "state outside the model: list materialisation caches (C09 shows they are unobservable), package-level variables")
 	n := c.Pick(400, 12000)
